@@ -91,12 +91,17 @@ func H_C03_leaves(t *verifrt.T) {
 		t.Assert("non-finite-float64-is-an-error", err != nil)
 	case 2:
 		f := []float32{float32(math.NaN()), float32(math.Inf(1)), float32(math.Inf(-1))}[t.Choice("f32", 3)]
-		out, err := Marshal(struct {
+		_, err := Marshal(struct {
 			F float32 `json:"f"`
 		}{f})
-		if err == nil {
-			t.Known("D9-non-finite-float32-emitted", !verifref.ValidJSON(out, verifref.Relax{}))
-		}
+		t.Assert("non-finite-float32-is-an-error", err != nil)
+		_, err = MarshalIndent([]float32{1, f}, "", " ")
+		t.Assert("non-finite-float32-is-an-error", err != nil)
+		_, err = Marshal(&struct {
+			P *float32 `json:"p,omitempty"`
+			S float32  `json:"s,string"`
+		}{P: &f, S: 1})
+		t.Assert("non-finite-float32-is-an-error", err != nil)
 		t.Cover("float32-checked", true)
 	}
 }
